@@ -21,6 +21,8 @@ TECHNIQUE = "static analysis of built MIR: edge dominance (must-pass-through), n
 
 
 def run(facts, tr, rep):
+    _n_ops = check_no_panicking_time_arith(facts, tr, rep, "C03.NO-PANIC-ARITH", facts.crates[CRATE].bodies)
+    rep.note("panicking Instant/Duration operators examined in the crate: %d" % _n_ops)
     cb = CB(facts, tr, rep)
     rep.floor("C03.inner-call-sites", len(cb.sites), 2)
     for (sb, b, c, adm) in cb.sites:
@@ -61,6 +63,7 @@ def run(facts, tr, rep):
     rep.floor("C03.state-arms", len([v for v in ("Closed", "Open", "HalfOpen") if v in sw.variants]), 3)
     # Open arm: true only under elapsed >= wait_duration_in_open, after the transition to HalfOpen
     n_true = 0
+    ts_fields0 = [f["name"] for f in cb.circuit["variants"][0]["fields"] if "Instant" in facts.crates[CRATE].types[f["ty"]]["s"]]
     tcalls = [(b, cs, tgt) for (b, cs, tgt) in cb.transition_calls() if b is a]
     for (i, j, node) in ret_assigns(tr, a):
         if not cb.in_arm(a, sw_bb, sw, "Open", i):
@@ -81,10 +84,9 @@ def run(facts, tr, rep):
                 if c is None:
                     continue
                 op, x, y = c
-                if op in ("Ge", "Gt") and _is_elapsed(tr, x) and mentions_field(tr, y, "wait_duration_in_open"):
-                    ok_guard = True
-                    gdesc = g.where(e["bb"])
-                if op in ("Le", "Lt") and _is_elapsed(tr, y) and mentions_field(tr, x, "wait_duration_in_open"):
+                ef = elapsed_form(tr, c)
+                if ef is not None and mentions_field(tr, ef[1], "wait_duration_in_open") and \
+                        any(mentions_field(tr, ef[0], tsf) for tsf in ts_fields0):
                     ok_guard = True
                     gdesc = g.where(e["bb"])
             ok_trans = any(tgt == "HalfOpen" and g.node_dominates(cs.bb, i) for (_b, cs, tgt) in tcalls)
@@ -133,7 +135,7 @@ def run(facts, tr, rep):
             continue
         nleave += 1
         rep.saw(b_)
-        name = b_.def_.split("::")[-1]
+        name = cb.role(b_)
         arm = cb.arm_of(b_, cs.bb)[0]
         ok = (name, arm) in allowed_leave
         rep.ob("C03.LEAVE-OPEN", skey(b_, "transition->%s@%s" % (tgt, arm)), ok, cs.where(),
